@@ -81,14 +81,22 @@ pub fn gen_case(g: &mut Gen, big: bool) -> Case {
     }
     let name_len = g.pick(&[1usize, 8, 60, 120, 200, 250]);
     let stack = if total_target > 5000 { 2 + g.below(2) as u8 } else { g.weighted(&[5, 2, 2, 1]) as u8 };
-    let script = if g.chance(1, 3) {
-        g.vec_of(1, 12, |g| match g.weighted(&[5, 3, 1]) {
+    let script = match g.weighted(&[4, 1, 1]) {
+        0 => vec![],
+        1 => g.vec_of(1, 12, |g| match g.weighted(&[5, 3, 1]) {
             0 => 0u16,
             1 => g.pick(&[1u16, 2, 255, 126]),
             _ => 256 + 15,
-        })
-    } else {
-        vec![]
+        }),
+        _ => {
+            // exactly one failing invocation (its position decides whether the status survives
+            // whatever happens around it: the last batch, the batch flushed on entering a new
+            // directory, the batch flushed while -quit fires)
+            let k = g.usize_in(0, 7);
+            let mut v = vec![0u16; k];
+            v.push(g.pick(&[1u16, 3, 255]));
+            v
+        }
     };
     Case {
         dirs,
@@ -101,7 +109,7 @@ pub fn gen_case(g: &mut Gen, big: bool) -> Case {
         test: g.weighted(&[4, 2, 2, 2]) as u8,
         depth: g.chance(1, 4),
         two_roots: g.chance(1, 5),
-        quit_after: if g.chance(1, 5) { Some(g.usize_in(0, total_target.max(1))) } else { None },
+        quit_after: if g.chance(1, 3) { Some(if g.bool() { g.usize_in(0, total_target.max(1)) } else { g.usize_in(0, 12.min(total_target.max(1))) }) } else { None },
         script,
         missing_cmd: g.chance(1, 25),
         second: g.chance(1, 4),
